@@ -3,6 +3,8 @@ package main
 import (
 	"fmt"
 	"math/rand"
+	"os"
+	"time"
 	"unicode"
 	"unicode/utf8"
 
@@ -11,6 +13,7 @@ import (
 	"github.com/gdamore/tcell/v2/terminfo"
 	xenc "golang.org/x/text/encoding"
 
+	"verifharness/faketty"
 	"verifharness/trace"
 )
 
@@ -150,6 +153,104 @@ func textRuns(tw *trace.Writer, rng *rand.Rand, n int, exh bool, st map[string]i
 		}
 	}
 	_ = utf8.RuneLen
-	st["histories"], st["ops"], st["distinct"], st["samples"], st["charsets"] = strs, runs, len(distinct), samples, len(statelessCharsets)
+	nloc, err := localeRuns(tw)
+	if err != nil {
+		return err
+	}
+	st["histories"], st["ops"], st["distinct"], st["samples"], st["charsets"] = strs, runs+nloc, len(distinct), samples, len(statelessCharsets)
+	st["locales"] = nloc
 	return nil
+}
+
+// localeRuns: the character set a real screen takes from the POSIX locale variables (LC_ALL, then LC_CTYPE, then
+// LANG), and text typed in that character set, through Init on a fake tty.
+func localeRuns(tw *trace.Writer) (int, error) {
+	type env struct{ all, ctype, lang string }
+	cases := []env{
+		{"en_US.UTF-8", "", ""}, {"C.UTF-8", "", ""}, {"C.utf8", "", ""}, {"POSIX.UTF-8", "", ""}, {"C", "", ""}, {"POSIX", "", ""},
+		{"", "", ""}, {"de_DE", "", ""}, {"de_DE@euro", "", ""}, {"de_DE.ISO8859-15@euro", "", ""}, {"de_DE.ISO8859-1", "", ""},
+		{"ru_RU.KOI8-R", "", ""}, {"ja_JP.EUC-JP", "", ""}, {"zh_TW.Big5", "", ""}, {"", "ru_RU.KOI8-R", "en_US.UTF-8"},
+		{"", "", "el_GR.ISO8859-7"}, {"", "C", "en_US.UTF-8"}, {"C", "en_US.UTF-8", "en_US.UTF-8"}, {"", "", "C.UTF-8"},
+		{"en_US.UTF-8", "C", "C"}, {"", "POSIX.UTF-8", ""}, {"C.ISO8859-1", "", ""},
+	}
+	saved := map[string]string{}
+	for _, k := range []string{"LC_ALL", "LC_CTYPE", "LANG"} {
+		saved[k] = os.Getenv(k)
+	}
+	defer func() {
+		for k, v := range saved {
+			os.Setenv(k, v)
+		}
+	}()
+	tw.Emit(trace.Ev{"ev": "Reset"})
+	tw.Emit(trace.Ev{"ev": "Config", "term": "xterm-256color", "mode": "text", "cs": "locale", "paste": true, "kRune": int(tcell.KeyRune)})
+	sample := []rune{'a', 0xe9, 0x416, 0x3b1, 0x4e16, 0x20ac, 'z'}
+	for _, c := range cases {
+		os.Setenv("LC_ALL", c.all)
+		os.Setenv("LC_CTYPE", c.ctype)
+		os.Setenv("LANG", c.lang)
+		ti := *terminfo.VerifEntry("xterm-256color")
+		tty := faketty.New(20, 5)
+		s, err := tcell.NewTerminfoScreenFromTtyTerminfo(tty, &ti)
+		e := trace.Ev{"ev": "Locale", "lc_all": trace.Str(c.all), "lc_ctype": trace.Str(c.ctype), "lang": trace.Str(c.lang),
+			"charset": []int{}, "initerr": "", "src": []int{}, "got": []int{}, "registered": false}
+		if err != nil {
+			return 0, err
+		}
+		if err := s.Init(); err != nil {
+			e["initerr"] = err.Error()
+			tw.Emit(e)
+			continue
+		}
+		cs := s.CharacterSet()
+		e["charset"] = trace.Str(cs)
+		// type the sample runes this character set has, encoded by an encoder of our own
+		if enc := tcell.GetEncoding(cs); enc != nil {
+			e["registered"] = true
+			var src []rune
+			var bytesIn []byte
+			for _, r := range sample {
+				b, err := enc.NewEncoder().Bytes([]byte(string(r)))
+				if err == nil && len(b) > 0 && (r < 0x80 || b[0] != 0x1a) && !(len(b) == 1 && b[0] == '?' && r != '?') {
+					src = append(src, r)
+					bytesIn = append(bytesIn, b...)
+				}
+			}
+			for s.HasPendingEvent() {
+				s.PollEvent()
+			}
+			tty.Inject(bytesIn)
+			var got []rune
+			deadline := time.After(2 * time.Second)
+			evc := make(chan tcell.Event, 64)
+			go func() {
+				for {
+					ev := s.PollEvent()
+					if ev == nil {
+						close(evc)
+						return
+					}
+					evc <- ev
+				}
+			}()
+		collect:
+			for len(got) < len(src) {
+				select {
+				case ev, ok := <-evc:
+					if !ok {
+						break collect
+					}
+					if k, ok := ev.(*tcell.EventKey); ok && k.Key() == tcell.KeyRune {
+						got = append(got, k.Rune())
+					}
+				case <-deadline:
+					break collect
+				}
+			}
+			e["src"], e["got"] = trace.Runes(src), trace.Runes(got)
+		}
+		s.Fini()
+		tw.Emit(e)
+	}
+	return len(cases), nil
 }
